@@ -38,7 +38,15 @@ pub enum Step {
         bad_prev: bool,
         #[serde(default)]
         old: u8,
+        /// size class of the first new entry's payload: 0 none; k>0: a `Put`
+        /// of k * 300 KiB incompressible bytes (k >= 4: the WAL record exceeds 1 MiB)
+        #[serde(default)]
+        big: u8,
     },
+    /// log compaction on the node: finalize to (commit index - back), take a
+    /// snapshot through the public create_snapshot, truncate_log. The entries
+    /// dropped from memory stay promised: a restart must still come back with them.
+    Compact { back: u8 },
     Election,
     VoteResp { from: u8, granted: bool, dterm: i8 },
     AppendResp { from: u8, ok: bool, back: u8, dterm: i8 },
@@ -73,6 +81,10 @@ pub struct Case {
     pub geo: bool,
     pub steps: Vec<Step>,
     pub mode: Mode,
+    /// RaftConfig::snapshot_trailing_logs + 1 (0: the default of 100, as in
+    /// replay files written before compaction was driven)
+    #[serde(default)]
+    pub trailing: u8,
 }
 
 pub struct C10;
@@ -84,7 +96,24 @@ fn raft_cfg(case: &Case) -> RaftConfig {
     c.enable_fast_path = case.fast_path;
     c.enable_geometric_tiebreak = case.geo;
     c.auto_heartbeat = false;
+    if case.trailing > 0 {
+        c.snapshot_trailing_logs = usize::from(case.trailing) - 1;
+    }
     c
+}
+
+/// `k * 300 KiB` of bytes no encoder packs (bitcode collapses runs).
+fn big_payload(k: u8, salt: u64) -> Vec<u8> {
+    let mut x = salt.wrapping_mul(0x9E37_79B9_7F4A_7C15) | 1;
+    let n = usize::from(k) * 300 * 1024;
+    let mut v = Vec::with_capacity(n + 8);
+    while v.len() < n {
+        x ^= x << 13;
+        x ^= x >> 7;
+        x ^= x << 17;
+        v.extend_from_slice(&x.to_le_bytes());
+    }
+    v
 }
 
 struct Trial<'a> {
@@ -109,6 +138,9 @@ struct Trial<'a> {
     /// lie outside what any Raft cluster can produce
     term_leader: BTreeMap<u64, String>,
     script_entries: BTreeMap<(u64, u64), u64>,
+    /// entries compacted out of the node's memory (index 1..): the image the
+    /// oracle works with is always the full log from index 1
+    dropped: Vec<Ent>,
 }
 
 fn lcp(a: &[Ent], b: &[Ent]) -> usize {
@@ -120,7 +152,7 @@ impl<'a> Trial<'a> {
         // each trial gets its own node directory name so files never mix
         let (cl, r) = Cluster::new_partial(ctx, 3, raft_cfg(case), true, &[]);
         let _ = r;
-        let mut t = Trial { ctx, case, cl, acked: Vec::new(), votes: BTreeMap::new(), max_term_sent: 0, payload_seq: tag * 1000, tag, disk_faults_at_start: 0, hard_faults_at_start: 0, term_leader: BTreeMap::new(), script_entries: BTreeMap::new() };
+        let mut t = Trial { ctx, case, cl, acked: Vec::new(), votes: BTreeMap::new(), max_term_sent: 0, payload_seq: tag * 1000, tag, disk_faults_at_start: 0, hard_faults_at_start: 0, term_leader: BTreeMap::new(), script_entries: BTreeMap::new(), dropped: Vec::new() };
         t.disk_faults_at_start = ctx.lock().faults.iter().filter(|(k, _)| k.starts_with("disk_")).map(|(_, v)| *v).sum();
         t.hard_faults_at_start = Self::hard_faults(ctx);
         // fresh WAL file per trial, nothing armed from a previous trial
@@ -139,6 +171,8 @@ impl<'a> Trial<'a> {
     }
 
     fn start(&mut self, what: &str) -> Result<(), Violation> {
+        // recovery rebuilds the whole log from the WAL: nothing is compacted
+        self.dropped.clear();
         self.cl.start(0).map_err(|e| Violation {
             class: "restart-failed".into(),
             detail: format!("{what}: RaftNode::with_wal failed on a log the node wrote itself: {e}"),
@@ -179,7 +213,16 @@ impl<'a> Trial<'a> {
     }
 
     fn node_image(&self) -> Image {
-        image(self.cl.nodes[0].as_ref().unwrap())
+        let mut img = image(self.cl.nodes[0].as_ref().unwrap());
+        // after a compaction the in-memory array starts at a later index: put
+        // the entries dropped from memory (and only those) in front again
+        let first = img.log.first().map_or(1, |e| e.index);
+        if first > 1 && self.dropped.len() as u64 >= first - 1 {
+            let mut full = self.dropped[..(first - 1) as usize].to_vec();
+            full.append(&mut img.log);
+            img.log = full;
+        }
+        img
     }
 
     /// Record the promises contained in the messages the node released in this step.
@@ -266,7 +309,7 @@ impl<'a> Trial<'a> {
                     self.cl.push(NODE, &cand, r);
                 }
             },
-            Step::Append { from, dterm, back, n, commit_back, bad_prev, old } => {
+            Step::Append { from, dterm, back, n, commit_back, bad_prev, old, big } => {
                 let leader = format!("n{}", 1 + from % 2);
                 let term = self.leader_term(rel(*dterm), &leader);
                 let prev = if *back >= 3 { l + 1 } else { l.saturating_sub(u64::from(*back)) };
@@ -286,7 +329,15 @@ impl<'a> Trial<'a> {
                 }
                 for j in 0..u64::from(*n % 4) {
                     let pl = self.script_payload(eterm, prev + 1 + j);
-                    entries.push(LogEntry::new(eterm, prev + 1 + j, mk_block(pl, &leader, self.case.fast_path)));
+                    let mut blk = mk_block(pl, &leader, self.case.fast_path);
+                    if j == 0 && *big > 0 {
+                        blk.transactions.push(tensor_chain::Transaction::Put { key: format!("big{pl}"), data: big_payload(*big, pl) });
+                        self.ctx.probe("large_entry_appended");
+                        if *big >= 4 {
+                            self.ctx.probe("entry_record_over_1mib");
+                        }
+                    }
+                    entries.push(LogEntry::new(eterm, prev + 1 + j, blk));
                 }
                 let commit = (prev + entries.len() as u64).saturating_sub(u64::from(*commit_back));
                 let emb = entries.last().map(|e| e.block.header.delta_embedding.clone());
@@ -302,6 +353,17 @@ impl<'a> Trial<'a> {
                 self.ctx.event(&format!("in <- {leader}: {}", msg_brief(&msg)));
                 if let Some(r) = node.handle_message(&leader, &msg) {
                     self.cl.push(NODE, &leader, r);
+                }
+            },
+            Step::Compact { back } => {
+                let h = node.commit_index().saturating_sub(u64::from(*back));
+                let before = img.log.clone();
+                let r = node.finalize_to(h).and_then(|()| node.create_snapshot()).and_then(|(meta, _)| node.truncate_log(&meta).map(|()| meta.last_included_index));
+                let first = image(&node).log.first().map_or(1, |e| e.index);
+                self.ctx.event(&format!("compact to {h} -> {:?}, in-memory log now starts at index {first}", r.as_ref().map_err(|e| e.to_string())));
+                if first > 1 {
+                    self.dropped = before[..((first - 1) as usize).min(before.len())].to_vec();
+                    self.ctx.probe("log_compacted_in_memory");
                 }
             },
             Step::Election => {
@@ -674,7 +736,10 @@ fn gen_steps(rng: &mut Rng, n: usize, faults: bool) -> Vec<Step> {
                 commit_back: rng.below(3) as u8,
                 bad_prev: rng.chance(1, 8),
                 old: *rng.pick(&[0u8, 0, 0, 1, 2]),
+                big: 0,
             }
+        } else if r < 51 {
+            Step::Compact { back: *rng.pick(&[0u8, 0, 1, 2]) }
         } else if r < 58 {
             Step::Election
         } else if r < 70 {
@@ -744,7 +809,18 @@ impl Scenario for C10 {
                     .collect(),
             )
         };
-        Case { pre_vote: rng.chance(1, 2), fast_path: rng.chance(1, 2), geo: rng.chance(1, 2), steps, mode }
+        // a few seeded-crash cases carry one large entry (up to 1.5 MiB of payload)
+        if mode != Mode::Enumerate && rng.chance(1, 8) {
+            let k = *rng.pick(&[1u8, 4, 4, 5]);
+            let cands: Vec<usize> = steps.iter().enumerate().filter(|(_, s)| matches!(s, Step::Append { n, .. } if n % 4 > 0)).map(|(i, _)| i).collect();
+            if !cands.is_empty() {
+                let at = *rng.pick(&cands);
+                if let Step::Append { big, .. } = &mut steps[at] {
+                    *big = k;
+                }
+            }
+        }
+        Case { pre_vote: rng.chance(1, 2), fast_path: rng.chance(1, 2), geo: rng.chance(1, 2), steps, mode, trailing: 1 + rng.below(3) as u8 }
     }
 
     fn run(&self, case: &Case, ctx: &Arc<RunCtx>) -> RunOut {
@@ -847,6 +923,17 @@ impl Scenario for C10 {
                 }
             }
         }
+        for (i, st) in case.steps.iter().enumerate() {
+            if let Step::Append { big, .. } = st {
+                if *big > 0 {
+                    let mut c = case.clone();
+                    if let Step::Append { big, .. } = &mut c.steps[i] {
+                        *big = 0;
+                    }
+                    v.push(c);
+                }
+            }
+        }
         for flag in 0..3 {
             let mut c = case.clone();
             let changed = match flag {
@@ -871,6 +958,8 @@ impl Scenario for C10 {
             "restart_with_nonempty_log",
             "became_leader",
             "proposed_as_leader",
+            "log_compacted_in_memory",
+            "entry_record_over_1mib",
         ]
     }
     fn rule(&self) -> String {
@@ -887,7 +976,7 @@ impl Scenario for C10 {
         vec![
             "rename/truncate atomic and durable at the syscall; power loss cuts the WAL at byte-prefix granularity".into(),
             "outputs of a step torn by a crash are never sent (equivalent to the process stopping at that syscall)".into(),
-            "snapshot install / log compaction are not driven here".into(),
+            "auto-compaction from tick (threshold 10000 entries) is not reached; compaction is driven through finalize_to/create_snapshot/truncate_log".into(),
         ]
     }
 }
